@@ -13,7 +13,16 @@ out = "/tmp/seedout-%s%s" % (pid, variant)
 if not os.path.exists(wt):
     subprocess.run(["git", "-C", "/repo", "worktree", "add", "-q", "--detach", wt, "HEAD"], check=True)
 os.makedirs(out, exist_ok=True)
+used = set()
+if variant == "e":
+    import glob
+    for mp in glob.glob("/verif/seeded/%s?/meta.json" % pid):
+        try:
+            used.update(json.load(open(mp)).get("files") or [])
+        except Exception:
+            pass
 hint = {
+ "e": "Put the change in a place that a test aimed at the property's own functions would not exercise: a caller that feeds them, a consumer of their result, a constructor or default, a configuration switch, an adapter for another protocol version or connection type, or an error/cleanup path. Do NOT change any of these files (already used by earlier seeded changes): " + (", ".join(sorted(used)) or "(none)") + ". The property must be broken as observed through the proxy's real behaviour, while the functions the property names keep passing their direct tests.",
  "a": "Prefer a change that needs an unusual input or boundary value to manifest.",
  "b": "Prefer a change that needs a multi-step sequence of operations, a particular interleaving, a fault at a particular point, or two cooperating sites that each look fine alone.",
  "d": "Pick a DIFFERENT clause of the property than the one that comes to mind first: read the whole statement, list its separate claims (each 'and', 'never', 'unless', 'only if', 'at most', 'exactly'), and break one of the less prominent ones - a secondary guarantee, an exception ('unless ...'), a bound, a uniqueness or ordering claim, or the behaviour for the rarer of two modes/directions/versions the statement names. The main, most visible behaviour must stay intact.",
